@@ -882,6 +882,43 @@ static Value builtin_array_new(Value *args) {
 
 static Value builtin_array_set(Value *args) {
     /* array_set(array, index, value) -> void */
+    if (args[0].type == VAL_DYN_ARRAY && args[1].type == VAL_INT) {
+        /* dynamic arrays (made by array_push, filter, map ...): same checks, the dyn_array setters */
+        DynArray *darr = args[0].as.dyn_array_val;
+        long long dindex = args[1].as.int_val;
+        if (dindex < 0 || dindex >= dyn_array_length(darr)) {
+            fprintf(stderr, "Runtime Error: Array index %lld out of bounds [0..%lld)\n",
+                    dindex, (long long)dyn_array_length(darr));
+            exit(1);  /* Fail fast! */
+        }
+        ElementType det = dyn_array_get_elem_type(darr);
+        if (det == ELEM_INT && args[2].type == VAL_INT) {
+            dyn_array_set_int(darr, dindex, args[2].as.int_val);
+            return create_void();
+        }
+        if (det == ELEM_FLOAT && args[2].type == VAL_FLOAT) {
+            dyn_array_set_float(darr, dindex, args[2].as.float_val);
+            return create_void();
+        }
+        if (det == ELEM_BOOL && args[2].type == VAL_BOOL) {
+            dyn_array_set_bool(darr, dindex, args[2].as.bool_val);
+            return create_void();
+        }
+        if (det == ELEM_STRING && args[2].type == VAL_STRING && args[2].as.string_val) {
+            dyn_array_set_string(darr, dindex, strdup(args[2].as.string_val));
+            return create_void();
+        }
+        if (det == ELEM_STRUCT && args[2].type == VAL_STRUCT && args[2].as.struct_val) {
+            /* elements are StructValue* (as array_push stores them): store a private copy */
+            Value copy = create_struct(args[2].as.struct_val->struct_name, args[2].as.struct_val->field_names,
+                                       args[2].as.struct_val->field_values, args[2].as.struct_val->field_count);
+            StructValue *sv_copy = copy.as.struct_val;
+            dyn_array_set_struct(darr, dindex, &sv_copy, sizeof(StructValue*));
+            return create_void();
+        }
+        fprintf(stderr, "Error: Type mismatch in array_set\n");
+        return create_void();
+    }
     if (args[0].type != VAL_ARRAY) {
         fprintf(stderr, "Error: array_set() requires an array as first argument\n");
         return create_void();
